@@ -29,7 +29,7 @@ func init() {
 			}},
 		},
 		Meta: eng.PropMeta{
-			Explanation: "Decides the structural conditions of export/import fidelity and import atomicity: (TXN-SHAPE) BasicImport runs basicImport inside one transaction that is committed only on success (the Create/Update calls inside run on that explicit transaction); (IMPORT-NUMBER) the JSON decoder that feeds NewDocFromMap preserves integers (UseNumber or typed targets) — on the pinned tree it does not, which is the recorded known finding; (IMPORT-STRICT) every error of the decoder (Token/Decode) is returned unconditionally — no decoder error is filtered (a truncated file can not be imported as a successful prefix), and every error of Create/Update/NewDocFromMap aborts; (IMPORT-IDMAP) the self-reference test compares a foreign key with the document's recorded new id (_docIDNew), and both id fields are removed before the document is rebuilt; (EXPORT-IDMAP) every exported document records _docIDNew from the rebuilt document and _docID from the stored one, a self reference is rewritten to the new id, and changed ids are entered into the key-change map used for foreign keys; (ERRFLOW) no error (file, JSON, store) is dropped in import/export. IMPORT-NUMBER accepts documents decoded with UseNumber or kept as json.RawMessage; (EXPORT-SELFREF) the exporter's self-reference tests compare identifiers of the source database only, never a value read from the old→new id map; (NORMALISE-IDENTITY) as in C13 (typed values read back from the store pass the normalisers unchanged, e.g. sub-second DateTime). (EXPORT-TOLERATES-DELETED) GetAllDocIDs also yields deleted documents, and the not-found error of fetching one does not leave basicExport; (DECODE-NO-DEFAULTS) a document decoded from the store (Collection.Get, which the exporter reads through) keeps no schema default for a field with no stored value; (EXPORT-NEWID-ONE-PROCEDURE) the identifier a document gets on import is computed by one procedure, whether the document is being written or referred to — on the pinned tree it is not, which is a recorded known finding.",
+			Explanation: "Decides the structural conditions of export/import fidelity and import atomicity: (TXN-SHAPE) BasicImport runs basicImport inside one transaction that is committed only on success (the Create/Update calls inside run on that explicit transaction); (IMPORT-NUMBER) the JSON decoder that feeds the document constructor preserves integers (UseNumber, typed targets or raw JSON) — it did not on the tree this work started from; repaired (d152973); (IMPORT-STRICT) every error of the decoder (Token/Decode) is returned unconditionally — no decoder error is filtered (a truncated file can not be imported as a successful prefix), and every error of Create/Update/NewDocFromMap aborts; (IMPORT-IDMAP) the self-reference test compares a foreign key with the document's recorded new id (_docIDNew), and both id fields are removed before the document is rebuilt; (EXPORT-IDMAP) every exported document records _docIDNew from the rebuilt document and _docID from the stored one, a self reference is rewritten to the new id, and changed ids are entered into the key-change map used for foreign keys; (ERRFLOW) no error (file, JSON, store) is dropped in import/export. IMPORT-NUMBER accepts documents decoded with UseNumber or kept as json.RawMessage; (EXPORT-SELFREF) the exporter's self-reference tests compare identifiers of the source database only, never a value read from the old→new id map; (NORMALISE-IDENTITY) as in C13 (typed values read back from the store pass the normalisers unchanged, e.g. sub-second DateTime). (EXPORT-TOLERATES-DELETED) GetAllDocIDs also yields deleted documents, and the not-found error of fetching one does not leave basicExport; (DECODE-NO-DEFAULTS) a document decoded from the store (Collection.Get, which the exporter reads through) keeps no schema default for a field with no stored value; (EXPORT-NEWID-ONE-PROCEDURE) the identifier a document gets on import is computed by one procedure, whether the document is being written or referred to — on the current tree it is not (two sites), which is the recorded known finding of this property.",
 			NotDecided:  "field-value fidelity for every kind and value (floats, date-times, blobs, JSON), equivalence of a re-export, relation fidelity for all topologies",
 		},
 	})
